@@ -53,10 +53,13 @@ def _occurrence_parents(t, target, parent=None, out=None):
 def _threshold(cond):
     """A magnitude test: abs(...) or an ordering comparison against a non-zero numeric constant
     (equality / zero tests are exact case splits and are decided algebraically by C10)."""
+    counters = {("field0", "N")}
     for t in ir.subterms(cond):
         if t[0] == "fn" and t[1] == "abs":
             return True
         if t[0] == "cmp" and t[1] in ("<", "<=", ">", ">="):
+            if any(side in counters or (side[0] == "op" and side[2] in counters) for side in (t[2], t[3])):
+                continue        # a test on the integer update count is an exact case split, not a magnitude test
             for side in (t[2], t[3]):
                 c = const_value(side)
                 if c is not None and c != 0:
@@ -121,23 +124,28 @@ def check(run):
                       f"(thresholding / rounding breaks the relative error bounds for small magnitudes)",
                       "branch-free, no rounding")
     # ---- DENOM ----------------------------------------------------------------------------------------
+    from .boolalg import holds
+    from .algebra import arms
+    n0 = ("field0", "N")
     for cls, m in ((W, "update"), (W, "var")):
         sm = prog.summarise(cls, m)
-        terms = [sm.ret] + list(sm.fields.values())
-        n0 = ("field0", "N")
         okd, seen = True, 0
-        for t in terms:
-            for x in ir.subterms(t):
-                if x[0] == "op" and x[1] == "/":
-                    seen += 1
-                    d = x[3]
-                    good = d == ("op", "+", n0, ("const", 1)) or (d[0] == "fn" and d[1] == "max" and set(d[2]) == {n0, ("const", 1)}) \
-                        or (const_value(d) not in (None, 0))
-                    if not good:
-                        okd = False
-                        run.fail("DENOM", f"{cls.name}.{m}", f"{sm.path}:{sm.fn.lineno}", f"{cls.name}.{m}",
-                                 f"denominator {ir.show_nl(d)}",
-                                 f"division by {ir.show_nl(d)}, which is not provably >= 1 (count after increment / max(count, 1))")
+        for t in [sm.ret] + list(sm.fields.values()):
+            for facts, tt in arms(t):
+                for x in ir.subterms(tt):
+                    if x[0] == "op" and x[1] == "/":
+                        seen += 1
+                        d = x[3]
+                        good = d == ("op", "+", n0, ("const", 1)) or \
+                            (d[0] == "fn" and d[1] == "max" and set(d[2]) == {n0, ("const", 1)}) or \
+                            (const_value(d) not in (None, 0)) or \
+                            (facts and (holds(facts, ("cmp", ">=", d, ("const", 1))) or holds(facts, ("cmp", ">", d, ("const", 0)))))
+                        if not good:
+                            okd = False
+                            run.fail("DENOM", f"{cls.name}.{m}", f"{sm.path}:{sm.fn.lineno}", f"{cls.name}.{m}",
+                                     f"denominator {ir.show_nl(d)}",
+                                     f"division by {ir.show_nl(d)}, which is not provably >= 1 (count after increment / "
+                                     f"max(count, 1) / guarded by a count test)")
         if okd:
             run.ok("DENOM", f"{cls.name}.{m}", f"{seen} division(s), denominators are the incremented count / max(count, 1)")
     # ---- NOCAST ---------------------------------------------------------------------------------------
